@@ -93,9 +93,12 @@ static int one_read(int len, int *ret_out) {
   int ret, e, i;
   if (len > dcap) { dst = (char *)realloc(dst, (size_t)len + 1); dcap = len; }
   vh_buf_reset(&rlog);
+  /* the decoder must never write behind codeBufDecode: guard the bytes that follow it */
+  memset(W->codeBufEncode, 0xA5, 16);
   errno = 0;
   ret = webSocketsDecodeHybi(W, dst, len);
   e = ret < 0 ? errno : 0;
+  for (i = 0; i < 16; i++) if ((unsigned char)W->codeBufEncode[i] != 0xA5) { printf("CANARY "); break; }
   printf("ret=%d e=%s d=", ret, ename(e));
   vh_puthex(stdout, (unsigned char *)dst, ret > 0 ? (size_t)ret : 0);
   printf(" R=["); fwrite(rlog.p, 1, rlog.n, stdout); printf("]");
